@@ -7,7 +7,8 @@ subscribe/mod.rs (`Option` / `Vec` / `Box` impls: `max_level_hint`, `downcast_ra
 
 What `pick_level_hint` looks at for each operand is three things: its hint, whether it counts as per-layer-filtered
 (the PSF marker is found in it — for a tree: in BOTH branches) and whether it counts as "not there" (the none marker is found
-in it — for a tree: in EITHER branch).  Import-free apart from the hint merge of Core/Reload.
+in it — for a tree: in BOTH branches, since the repair of F33; before it, in EITHER, so that one absent member made a whole
+group count as absent).  Import-free apart from the hint merge of Core/Reload.
 -/
 import TracingModel.Core.Reload
 
@@ -41,7 +42,7 @@ def pick (o i : View) : Option Nat :=
 
 /-- `inner.and_then(outer)` as one operand -/
 def andThen (inner outer : View) : View :=
-  { hint := pick outer inner, psf := outer.psf && inner.psf, none := outer.none || inner.none }
+  { hint := pick outer inner, psf := outer.psf && inner.psf, none := outer.none && inner.none }
 
 /-- the pass-through wrappers: `Box`, `Some(_)`, `vec![_]` forward everything; `reload::Subscriber` forwards the hint and the
 none marker but cannot be downcast through (documented), so it hides a per-layer filter; `l.and_then(Identity)` is a tree -/
